@@ -320,6 +320,21 @@ def _fuzz(target, seed, steps, lsb0):
                 kw = r.choice([{}, {"n": 8}, {"n": -1}, {"n": "x"}, {"a": 3}])
                 thunk = lambda fmt=fmt, vals=vals, kw=kw: bitstring.pack(fmt, *vals, **kw)
                 desc = f"pack({fmt!r}, *{vals!r}, **{kw!r})"
+            elif target in CLASSES and _random.Random(seed * 17 + step).random() < 0.06:
+                # a constructor call of the same class with an 'auto' source and arbitrary length / offset / pos
+                rc_ = _random.Random(seed * 17 + step + 1)
+                src_ = rc_.choice([_bitsy(rc_, obj), io.BytesIO(bytes(rc_.getrandbits(8) for _ in range(rc_.choice([0, 1, 2, 5])))),
+                                   bytes(rc_.getrandbits(8) for _ in range(rc_.choice([0, 1, 3]))), bitarray.bitarray("10110"), 7, -1, None])
+                kw_ = {}
+                if rc_.random() < 0.7:
+                    kw_["length"] = _ints(rc_, 16)
+                if rc_.random() < 0.7:
+                    kw_["offset"] = _ints(rc_, 16)
+                if target in ("ConstBitStream", "BitStream") and rc_.random() < 0.3:
+                    kw_["pos"] = _ints(rc_, 16)
+                kw_ = {k_: v_ for k_, v_ in kw_.items() if v_ is not None}
+                thunk = lambda src_=src_, kw_=kw_: CLASSES[target](src_, **kw_)
+                desc = f"{target}({type(src_).__name__}, **{kw_!r})"
             elif forced and step == 0:
                 fn, a0 = getattr(obj, forced[1]), forced[2]
                 thunk = lambda fn=fn, a0=a0: fn(a0)
@@ -403,12 +418,23 @@ def _fuzz(target, seed, steps, lsb0):
                 outcome = "ok"
                 # a mutable bitstring handed back by the call must not share state with the immutable objects involved:
                 # change it in place, then the immutables are re-checked below
+                bad_result = None
                 for rr in (res if isinstance(res, (list, tuple)) else [res]):
+                    if isinstance(rr, Bits) and rr is not obj and bad_result is None:
+                        # every bitstring a call hands back is itself a valid object: printable, len == len(bin), a stream
+                        # has 0 <= pos <= len  (an object built without its __init__ fails here with AttributeError)
+                        try:
+                            bad_result = _valid(rr, rr.bin)
+                            repr(rr); str(rr)
+                        except Exception as e_:      # noqa: BLE001
+                            bad_result = f"returned object is unusable: {type(e_).__name__}"
                     if isinstance(rr, BitArray) and rr is not obj:
                         try:
                             rr.append("0b1"); rr.invert()
                         except Exception:            # noqa: BLE001
                             pass
+                if bad_result:
+                    outcome = "internal:invalid-result " + bad_result
             except RecursionError:
                 outcome = "internal:RecursionError"
             except MemoryError:
